@@ -6,4 +6,11 @@ export RIMU_REPO="${RIMU_REPO:-/repo}"
 mkdir -p .cache evidence replays
 PYTHONPATH="$RIMU_REPO/src" /venv/bin/python tools/translate.py "$RIMU_REPO" lean/RimuModel/Generated --cache .cache 2>&1 | grep -v 'WARNING conda'
 cd lean
-lake build RimuModel rimumodel RimuProofs 2>&1 | grep -v 'WARNING conda' | grep -v '^trace' | tail -5
+# staged, so that at most a few of the large proof files are elaborated at the same time (each needs 2-3 GB, Props/C07 7 GB)
+lake build RimuModel rimumodel 2>&1 | grep -v 'WARNING conda' | grep -v '^trace' | tail -2
+lake build RimuProofs.Facts RimuProofs.Lemmas.StepBlock RimuProofs.Lemmas.NITop RimuProofs.Lemmas.Fuel 2>&1 | grep -v 'WARNING conda' | grep -v '^trace' | tail -1
+lake build RimuProofs.Lemmas.SafeBlock 2>&1 | grep -v 'WARNING conda' | grep -v '^trace' | tail -1
+for group in "C07" "C01 C02 C03 C04 C05" "C06 C08 C09 C10 C11" "C12 C13 C14 C15 C16" "C17 C18 C19 C20"; do
+  lake build $(for p in $group; do echo RimuProofs.Props.$p; done) 2>&1 | grep -v 'WARNING conda' | grep -v '^trace' | tail -1
+done
+lake build RimuModel rimumodel RimuProofs 2>&1 | grep -v 'WARNING conda' | grep -v '^trace' | tail -3
